@@ -13,9 +13,7 @@ pub mod verif;
 pub fn build(in_dir: &Path, out_dir: &Path, pointer_size: usize) -> anyhow::Result<()> {
     let mut semantic_state = semantic::SemanticState::new(pointer_size);
 
-    // The directory is a literal path, not part of the pattern.
-    let in_dir_pattern = glob::Pattern::escape(&in_dir.display().to_string());
-    for path in glob::glob(&format!("{in_dir_pattern}/**/*.pyxis"))?.filter_map(Result::ok) {
+    for path in find_pyxis_files(in_dir) {
         semantic_state.add_file(Path::new(&in_dir), &path)?;
     }
 
@@ -27,6 +25,41 @@ pub fn build(in_dir: &Path, out_dir: &Path, pointer_size: usize) -> anyhow::Resu
     }
 
     Ok(())
+}
+
+/// Everything called `*.pyxis` in `dir` and its subdirectories, in a fixed order.
+///
+/// Symbolic links to directories are followed, but not back into a directory that is
+/// already being walked: a link cycle would otherwise never end.
+fn find_pyxis_files(dir: &Path) -> Vec<std::path::PathBuf> {
+    fn walk(dir: &Path, ancestors: &mut Vec<std::path::PathBuf>, found: &mut Vec<std::path::PathBuf>) {
+        let Ok(canonical_dir) = dir.canonicalize() else {
+            return;
+        };
+        if ancestors.contains(&canonical_dir) {
+            return;
+        }
+        let Ok(entries) = std::fs::read_dir(dir) else {
+            return;
+        };
+        let mut entries: Vec<_> = entries.filter_map(Result::ok).map(|e| e.path()).collect();
+        entries.sort();
+
+        ancestors.push(canonical_dir);
+        for path in entries {
+            if path.extension().is_some_and(|e| e == "pyxis") {
+                found.push(path.clone());
+            }
+            if path.is_dir() {
+                walk(&path, ancestors, found);
+            }
+        }
+        ancestors.pop();
+    }
+
+    let mut found = vec![];
+    walk(dir, &mut vec![], &mut found);
+    found
 }
 
 pub fn build_script(out_dir: Option<&Path>) -> anyhow::Result<()> {
